@@ -931,6 +931,25 @@ func ruleWrapConcat(p *Prog, r *Report) {
 				}
 				return false
 			case *ssa.Call:
+				// strings.Join(pieces, blank) over a slice that only ever receives encoder results, appended in order
+				if isCallTo(&x.Call, "strings.Join") {
+					sep, isS := constString(x.Call.Args[1])
+					if !isS || strings.Trim(sep, " \t\r\n") != "" {
+						return false
+					}
+					var srcs []ssa.Value
+					if !sliceSources(x.Call.Args[0], map[ssa.Value]bool{}, &srcs) {
+						return false
+					}
+					for _, sv := range srcs {
+						cv, isCv := sv.(*ssa.Convert)
+						if !isCv || res[0] == nil || cv.X != res[0] {
+							return false
+						}
+						sawEnc = true
+					}
+					return len(srcs) > 0
+				}
 				// a local strings.Builder / bytes.Buffer as the accumulator: everything written to it is an encoder result or a blank
 				if !isCallTo(&x.Call, "(*strings.Builder).String", "(*bytes.Buffer).String") {
 					return false
